@@ -1,7 +1,11 @@
 (** Proofs about the executor transition system (C05): conservation of work, exactly-once,
     deadlock freedom, termination by a strictly decreasing measure - for every thread count and
     every scheduler, with no fairness assumption.  [balanced] is any rebalancing relation with the four
-    facts below (proved of the concrete function in BalanceProofs.v). *)
+    facts below (proved of the concrete function in BalanceProofs.v).
+    The gathered queue locks are released one at a time ([PRelease j hi]): the invariant records exactly
+    which queue locks a gathering / balancing / releasing thread holds, and the measure charges every
+    "wasted pass" through the state lock (own queue found non-empty) to the release step that made it
+    possible (see [Fc] / [dist]). *)
 From Coq Require Import List Arith Lia Bool Permutation.
 Import ListNotations.
 From TB Require Import ExecModel.
@@ -31,14 +35,16 @@ Proof. unfold upd. intros. destruct (Nat.eqb_spec x t); congruence. Qed.
 
 (* ---------- classification of program counters ---------- *)
 Definition holds_slock (p : pcT) : bool :=
-  match p with PChk | PLockOwn | PChkLen | PGather _ | PBalance | PRelOwn | PRelState => true | _ => false end.
-Definition holds_own (p : pcT) : bool :=
-  match p with PHoldOwn | PChkLen | PGather _ | PBalance | PRelOwn => true | _ => false end.
+  match p with PChk | PLockOwn | PChkLen | PGather _ | PBalance | PRelease _ _ | PRelOwn | PRelState => true | _ => false end.
+(* does thread [t] at [p] hold the lock of its own queue?  While releasing, iff its index is still ahead *)
+Definition holds_own (t : nat) (p : pcT) : bool :=
+  match p with PHoldOwn | PChkLen | PGather _ | PBalance | PRelOwn => true
+             | PRelease j hi => (j <=? t) && (t <? hi) | _ => false end.
 Definition in_active (p : pcT) : bool :=
   match p with PLockOwn | PChkLen | PGather _ | PBalance | PRelOwn => true | _ => false end.
 Definition gathering (p : pcT) : bool := match p with PGather _ | PBalance => true | _ => false end.
-Definition idle_pre (p : pcT) : bool := match p with PWantState | PChk | PLockOwn | PChkLen => true | _ => false end.
-Definition releasing (p : pcT) : bool := match p with PRelOwn | PRelState => true | _ => false end.
+(* the program counters at which a thread may hold queue locks of other threads *)
+Definition multi (p : pcT) : bool := match p with PGather _ | PBalance | PRelease _ _ => true | _ => false end.
 
 Record Inv (s : st) : Prop := {
   i_act : active s <= n;
@@ -46,19 +52,21 @@ Record Inv (s : st) : Prop := {
   i_sl  : forall t, t < n -> holds_slock (pc s t) = true -> slock s = Some t;
   i_in  : forall t, t < n -> in_active (pc s t) = true -> t < active s;
   i_emp : forall t, t < n -> gathering (pc s t) = true -> q s t = [];
-  i_own : forall t, t < n -> holds_own (pc s t) = true -> qlock s t = Some t;
-  i_nown: forall t, t < n -> holds_own (pc s t) = false -> qlock s t <> Some t;
-  i_oth : forall i t, qlock s i = Some t -> t <> i -> t < n /\ gathering (pc s t) = true;
+  i_own : forall t, t < n -> holds_own t (pc s t) = true -> qlock s t = Some t;
+  i_nown: forall t, t < n -> holds_own t (pc s t) = false -> qlock s t <> Some t;
+  i_oth : forall i t, qlock s i = Some t -> t <> i -> t < n /\ multi (pc s t) = true;
   i_tail: forall i, active s <= i -> q s i = [];
-  i_J   : forall t, t < n -> idle_pre (pc s t) = true -> pend s t = false ->
-                    q s t = [] \/ exists r, r <> t /\ qlock s t = Some r;
-  i_rel : forall t, t < n -> releasing (pc s t) = true -> pend s t = true;
   i_slc : forall r, slock s = Some r -> r < n /\ holds_slock (pc s r) = true;
-  i_ownc: forall i, qlock s i = Some i -> i < n /\ holds_own (pc s i) = true;
+  i_ownc: forall i, qlock s i = Some i -> i < n /\ holds_own i (pc s i) = true;
   i_gl  : forall r j i, r < n -> pc s r = PGather j -> qlock s i = Some r -> i <> r -> i < j;
-  i_done: forall t, t < n -> pc s t = PDone -> active s <= t
+  i_done: forall t, t < n -> pc s t = PDone -> active s <= t;
+  (* exactly which queue locks a gathering / balancing / releasing thread holds *)
+  i_gh  : forall r j i, r < n -> pc s r = PGather j -> i < j -> i < active s -> qlock s i = Some r;
+  i_bh  : forall r i, r < n -> pc s r = PBalance -> i < active s -> qlock s i = Some r;
+  i_bl  : forall r i, r < n -> pc s r = PBalance -> qlock s i = Some r -> i < active s;
+  i_rh  : forall r j hi i, r < n -> pc s r = PRelease j hi -> j <= i -> i < hi -> qlock s i = Some r;
+  i_rl  : forall r j hi i, r < n -> pc s r = PRelease j hi -> qlock s i = Some r -> j <= i /\ i < hi
 }.
-
 
 Ltac upd_simpl := repeat (
   rewrite upd_same in * ||
@@ -72,15 +80,6 @@ Proof.
   intros Hq. constructor; cbn; intros; try discriminate; try lia; auto.
 Qed.
 
-Lemma release_all_spec t l i r : release_all t l i = Some r <-> (l i = Some r /\ r <> t).
-Proof.
-  unfold release_all. destruct (l i) as [h|]; [|split; [discriminate|intros [? _]; discriminate]].
-  destruct (Nat.eqb_spec h t); split; intros H; try discriminate.
-  - destruct H as [H1 H2]. inversion H1; subst. contradiction.
-  - inversion H; subst. auto.
-  - destruct H as [H1 _]. exact H1.
-Qed.
-
 Lemma trailing_empty_le (f : nat -> list piece) a : trailing_empty f a <= a.
 Proof. induction a; cbn; [lia|]. destruct (f a); lia. Qed.
 
@@ -91,24 +90,11 @@ Proof.
   destruct (Nat.eq_dec i a) as [->|]; [exact E|]. apply IH; lia.
 Qed.
 
-
 Ltac thr u t := destruct (Nat.eq_dec u t) as [?|?]; [subst u|].
 Ltac pcrw := repeat match goal with
   | H : pc ?s ?t = _ |- _ => rewrite H in *; clear H
   end.
 Ltac fin := cbn in *; try discriminate; try congruence; try lia; auto.
-
-(* instantiate all invariant fields at thread u *)
-Ltac inst I u Hu :=
-  let a := fresh "A" in pose proof (i_gat _ I u) as a;
-  let b := fresh "B" in pose proof (i_sl _ I u Hu) as b;
-  let c := fresh "C" in pose proof (i_in _ I u Hu) as c;
-  let d := fresh "D" in pose proof (i_emp _ I u Hu) as d;
-  let e := fresh "E" in pose proof (i_own _ I u Hu) as e;
-  let f := fresh "F" in pose proof (i_nown _ I u Hu) as f;
-  let g := fresh "G" in pose proof (i_J _ I u Hu) as g;
-  let h := fresh "H" in pose proof (i_rel _ I u Hu) as h.
-
 
 Ltac prem := repeat match goal with
   | H : true = true -> _ |- _ => specialize (H eq_refl)
@@ -121,87 +107,153 @@ Ltac fwd := repeat match goal with
   end.
 Ltac fin2 := prem; fwd; try discriminate; try congruence; try lia; auto.
 
+Lemma in_active_sl p : in_active p = true -> holds_slock p = true. Proof. destruct p; cbn; auto. Qed.
+Lemma gathering_sl p : gathering p = true -> holds_slock p = true. Proof. destruct p; cbn; auto. Qed.
+Lemma gathering_own t p : gathering p = true -> holds_own t p = true. Proof. destruct p; cbn; auto; discriminate. Qed.
+Lemma gathering_in p : gathering p = true -> in_active p = true. Proof. destruct p; cbn; auto. Qed.
+Lemma multi_sl p : multi p = true -> holds_slock p = true. Proof. destruct p; cbn; auto. Qed.
+
+(* ---------- brute-force machinery for the preservation lemmas ---------- *)
+Definition mark {A} (a : A) : Prop := True.
+
+(* boolean-classified invariant fields at thread u *)
+Ltac inst I u Hu :=
+  lazymatch goal with
+  | _ : mark (u, I) |- _ => idtac
+  | _ =>
+    assert (mark (u, I)) by exact Logic.I;
+    pose proof (i_sl _ I u Hu);
+    pose proof (i_in _ I u Hu);
+    pose proof (i_emp _ I u Hu);
+    pose proof (i_own _ I u Hu);
+    pose proof (i_nown _ I u Hu)
+  end.
+Ltac inst_thr I := repeat match goal with
+  | Hu : ?u < n |- _ => lazymatch goal with | _ : mark (u, I) |- _ => fail | _ => inst I u Hu end
+  end.
+
+(* the fields indexed by a concrete program counter, for every thread whose pc is known *)
+Ltac facts I := repeat match goal with
+  | Hr : ?r < n, H : pc ?s ?r = ?p |- _ =>
+      lazymatch goal with | _ : mark (r, p, I) |- _ => fail | _ => idtac end;
+      assert (mark (r, p, I)) by exact Logic.I;
+      lazymatch p with
+      | PGather ?j => pose proof (i_gat _ I r j Hr H); pose proof (fun k => i_gl _ I r j k Hr H);
+                      pose proof (fun k => i_gh _ I r j k Hr H)
+      | PBalance => pose proof (fun k => i_bh _ I r k Hr H); pose proof (fun k => i_bl _ I r k Hr H)
+      | PRelease ?j ?hi => pose proof (fun k => i_rh _ I r j hi k Hr H); pose proof (fun k => i_rl _ I r j hi k Hr H)
+      | PDone => pose proof (i_done _ I r Hr H)
+      | _ => idtac
+      end
+  end.
+
+(* case split on every comparison of an updated function's argument with the updated index *)
+Ltac updq := repeat (upd_simpl;
+  match goal with
+  | |- context [upd _ ?x _ ?i] => destruct (Nat.eq_dec i x); [subst|]
+  | H : context [upd _ ?x _ ?i] |- _ => destruct (Nat.eq_dec i x); [subst|]
+  end); upd_simpl.
+
+Ltac bdestr := repeat (match goal with
+  | |- context [?a <=? ?b] => destruct (Nat.leb_spec a b)
+  | H : context [?a <=? ?b] |- _ => destruct (Nat.leb_spec a b)
+  | |- context [?a <? ?b] => destruct (Nat.ltb_spec a b)
+  | H : context [?a <? ?b] |- _ => destruct (Nat.ltb_spec a b)
+  end; cbn [andb] in *).
+
+(* instantiate a universally quantified (over nat) hypothesis with every nat in the context *)
+Ltac inst_nat H :=
+  repeat match goal with
+  | x : nat |- _ =>
+      let T := type of (H x) in
+      lazymatch goal with | _ : T |- _ => fail | _ => pose proof (H x) end
+  end.
+Ltac inst_nats := repeat match goal with
+  | H : forall k : nat, _ |- _ =>
+      lazymatch type of H with context [balanced] => fail | _ => idtac end;
+      progress (inst_nat H)
+  end.
+Ltac pcinv := repeat match goal with
+  | H : PGather _ = PGather _ |- _ => inversion H; clear H; subst
+  | H : PRelease _ _ = PRelease _ _ |- _ => inversion H; clear H; subst
+  | H : PSolve _ = PSolve _ |- _ => inversion H; clear H; subst
+  end.
+
+(* discharge premises that are provable by assumption / arithmetic / congruence *)
+Ltac fwdl := repeat match goal with
+  | H : ?P -> _ |- _ =>
+      match type of P with Prop => idtac end;
+      let HP := fresh in assert (HP : P) by (assumption || reflexivity || lia || congruence);
+      specialize (H HP); clear HP
+  end.
+Ltac splits := repeat match goal with |- _ /\ _ => split end.
+Ltac deconj := repeat match goal with H : _ /\ _ |- _ => destruct H end.
+Ltac solve_it := splits; cbn in *; try discriminate; try congruence; try lia; auto.
+
+Ltac step_cases Hs :=
+  destruct Hs; cbn [active slock qlock q pc solved pend set_pc] in *.
+Ltac quick := try solve [splits; first [discriminate | assumption | congruence | lia]].
+Ltac crunch I :=
+  updq; inst_thr I; facts I; pcrw; try discriminate; pcinv;
+  cbn [holds_slock holds_own in_active gathering multi] in *; prem; quick;
+  bdestr; prem; quick;
+  inst_nats; fwdl; deconj; solve_it.
+
 Lemma step_act s s' t : Inv s -> t < n -> step t s s' -> active s' <= n.
 Proof. intros I Ht Hs. pose proof (i_act _ I). destruct Hs; cbn; lia. Qed.
 
 Lemma step_gat s s' t : Inv s -> t < n -> step t s s' ->
   forall u i, u < n -> pc s' u = PGather i -> i <= active s'.
-Proof.
-  intros I Ht Hs u i Hu Hp. inst I t Ht. inst I u Hu.
-  destruct Hs; cbn [active slock qlock q pc solved pend set_pc] in *; thr u t; upd_simpl;
-    try discriminate; try (inversion Hp; subst); pcrw; fin.
-  all: try (apply A0; auto; fail).
-  all: try (specialize (A _ Hu eq_refl); lia).
-  all: fin2.
-Qed.
-
-
-
-Lemma in_active_sl p : in_active p = true -> holds_slock p = true. Proof. destruct p; cbn; auto. Qed.
-Lemma gathering_sl p : gathering p = true -> holds_slock p = true. Proof. destruct p; cbn; auto. Qed.
-Lemma gathering_own p : gathering p = true -> holds_own p = true. Proof. destruct p; cbn; auto. Qed.
-Lemma gathering_in p : gathering p = true -> in_active p = true. Proof. destruct p; cbn; auto. Qed.
-Lemma releasing_sl p : releasing p = true -> holds_slock p = true. Proof. destruct p; cbn; auto. Qed.
-
-Ltac go I t Ht u Hu Hs :=
-  inst I t Ht; inst I u Hu;
-  match type of Hs with step _ ?s _ =>
-    pose proof (in_active_sl (pc s u)); pose proof (gathering_sl (pc s u));
-    pose proof (gathering_own (pc s u)); pose proof (releasing_sl (pc s u)) end;
-  destruct Hs; cbn [active slock qlock q pc solved pend set_pc] in *; thr u t; upd_simpl;
-    pcrw; fin; fin2.
+Proof. intros I Ht Hs u i Hu Hp. step_cases Hs; thr u t; crunch I. Qed.
 
 Lemma step_sl s s' t : Inv s -> t < n -> step t s s' ->
   forall u, u < n -> holds_slock (pc s' u) = true -> slock s' = Some u.
-Proof. intros I Ht Hs u Hu Hp. go I t Ht u Hu Hs. Qed.
+Proof. intros I Ht Hs u Hu Hp. step_cases Hs; thr u t; crunch I. Qed.
 
 Lemma step_in s s' t : Inv s -> t < n -> step t s s' ->
   forall u, u < n -> in_active (pc s' u) = true -> u < active s'.
-Proof. intros I Ht Hs u Hu Hp. go I t Ht u Hu Hs. Qed.
+Proof.
+  intros I Ht Hs u Hu Hp. pose proof (in_active_sl (pc s u)).
+  step_cases Hs; thr u t; crunch I.
+Qed.
 
 Lemma step_emp s s' t : Inv s -> t < n -> step t s s' ->
   forall u, u < n -> gathering (pc s' u) = true -> q s' u = [].
-Proof. intros I Ht Hs u Hu Hp. go I t Ht u Hu Hs. Qed.
-
+Proof.
+  intros I Ht Hs u Hu Hp. pose proof (gathering_sl (pc s u)).
+  step_cases Hs; thr u t; crunch I.
+Qed.
 
 Lemma step_own s s' t : Inv s -> t < n -> step t s s' ->
-  forall u, u < n -> holds_own (pc s' u) = true -> qlock s' u = Some u.
+  forall u, u < n -> holds_own u (pc s' u) = true -> qlock s' u = Some u.
 Proof.
-  intros I Ht Hs u Hu Hp. go I t Ht u Hu Hs.
-  - rewrite upd_other by auto. assumption.
-  - destruct (Nat.eq_dec u i); [subst; congruence|]. rewrite upd_other by auto. assumption.
-  - apply release_all_spec. auto.
+  intros I Ht Hs u Hu Hp.
+  step_cases Hs; thr u t; crunch I.
 Qed.
-
 
 Lemma step_nown s s' t : Inv s -> t < n -> step t s s' ->
-  forall u, u < n -> holds_own (pc s' u) = false -> qlock s' u <> Some u.
+  forall u, u < n -> holds_own u (pc s' u) = false -> qlock s' u <> Some u.
 Proof.
-  intros I Ht Hs u Hu Hp. go I t Ht u Hu Hs.
-  - destruct (Nat.eq_dec u i); [subst; rewrite upd_same; congruence|]. rewrite upd_other by auto. assumption.
-  - intros X. apply release_all_spec in X. tauto.
-  - intros X. apply release_all_spec in X. tauto.
+  intros I Ht Hs u Hu Hp.
+  step_cases Hs; thr u t; crunch I.
 Qed.
 
-
 Lemma step_oth s s' t : Inv s -> t < n -> step t s s' ->
-  forall i r, qlock s' i = Some r -> r <> i -> r < n /\ gathering (pc s' r) = true.
+  forall i r, qlock s' i = Some r -> r <> i -> r < n /\ multi (pc s' r) = true.
 Proof.
-  intros I Ht Hs i0 r Hq Hne. pose proof (i_oth _ I) as O. inst I t Ht.
-  pose proof (gathering_sl (pc s t)) as GS.
-  destruct Hs; cbn [active slock qlock q pc solved pend set_pc] in *;
-  try (destruct (Nat.eq_dec i0 t); [subst i0; rewrite upd_same in Hq; congruence | rewrite upd_other in Hq by auto]);
-  try (match goal with H : release_all _ _ _ = Some _ |- _ => apply release_all_spec in H; destruct H as [Hq Hrt] end).
-  all: try (match goal with i : nat |- context [PGather (S ?i)] =>
-          destruct (Nat.eq_dec i0 i); [subst i0; rewrite upd_same in Hq; inversion Hq; subst r; rewrite upd_same; cbn; auto | rewrite upd_other in Hq by auto] end).
+  intros I Ht Hs i0 r Hq Hne. pose proof (i_oth _ I) as O.
+  step_cases Hs; thr r t; thr i0 t; updq;
+    try (match goal with H : Some _ = Some _ |- _ => inversion H; subst end);
+    try discriminate; try congruence;
+    try (split; [assumption | upd_simpl; reflexivity]).
   all: destruct (O _ _ Hq Hne) as [Hr Hg]; split; [exact Hr|].
-  all: thr r t; upd_simpl; pcrw; fin; fin2.
+  all: crunch I.
 Qed.
 
 Lemma step_tail s s' t : Inv s -> t < n -> step t s s' -> forall i, active s' <= i -> q s' i = [].
 Proof.
-  intros I Ht Hs i0 Hi. pose proof (i_tail _ I) as T. inst I t Ht.
-  destruct Hs; cbn [active slock qlock q pc solved pend set_pc] in *; auto.
+  intros I Ht Hs i0 Hi. pose proof (i_tail _ I) as T.
+  step_cases Hs; auto.
   - (* pop_some *) destruct (Nat.eq_dec i0 t); [subst; rewrite (T _ Hi) in *; destruct rest; discriminate|].
     rewrite upd_other by auto. auto.
   - (* balance *) destruct (le_lt_dec (active s) i0).
@@ -209,79 +261,77 @@ Proof.
     + eapply trailing_empty_spec; eauto.
 Qed.
 
-
-Lemma step_J s s' t : Inv s -> t < n -> step t s s' ->
-  forall u, u < n -> idle_pre (pc s' u) = true -> pend s' u = false ->
-    q s' u = [] \/ exists r, r <> u /\ qlock s' u = Some r.
-Proof.
-  intros I Ht Hs u Hu Hp Hpe. pose proof (i_J _ I) as J. go I t Ht u Hu Hs.
-  - right. exists h. split; congruence.
-  - destruct G as [|[r [? ?]]]; auto; congruence.
-  - destruct (Nat.eq_dec u i).
-    + subst. right. exists t. rewrite upd_same. auto.
-    + rewrite upd_other by auto. auto.
-Qed.
-
-
-Lemma step_rel s s' t : Inv s -> t < n -> step t s s' ->
-  forall u, u < n -> releasing (pc s' u) = true -> pend s' u = true.
-Proof.
-  intros I Ht Hs u Hu Hp. pose proof (i_J _ I) as J. go I t Ht u Hu Hs.
-  destruct (pend s t) eqn:P; auto. destruct (G eq_refl) as [|[r [? ?]]]; congruence.
-Qed.
-
-
 Lemma step_slc s s' t : Inv s -> t < n -> step t s s' ->
   forall r, slock s' = Some r -> r < n /\ holds_slock (pc s' r) = true.
 Proof.
-  intros I Ht Hs r Hr. pose proof (i_slc _ I r) as SC. inst I t Ht.
-  destruct Hs; cbn [active slock qlock q pc solved pend set_pc] in *; try discriminate;
+  intros I Ht Hs r Hr. pose proof (i_slc _ I r) as SC.
+  step_cases Hs; try discriminate;
     try (inversion Hr; subst r; split; [assumption|rewrite upd_same; reflexivity]).
   all: destruct (SC Hr) as [Hrn Hh]; split; [assumption|].
-  all: thr r t; upd_simpl; pcrw; fin; fin2.
+  all: thr r t; crunch I.
 Qed.
 
 Lemma step_ownc s s' t : Inv s -> t < n -> step t s s' ->
-  forall i, qlock s' i = Some i -> i < n /\ holds_own (pc s' i) = true.
+  forall i, qlock s' i = Some i -> i < n /\ holds_own i (pc s' i) = true.
 Proof.
-  intros I Ht Hs i0 Hq. pose proof (i_ownc _ I i0) as OC. inst I t Ht.
-  destruct Hs; cbn [active slock qlock q pc solved pend set_pc] in *.
-  all: try (match goal with H : release_all _ _ _ = Some _ |- _ => apply release_all_spec in H; destruct H as [Hq Hrt] end).
-  all: try (match goal with H : upd (qlock _) ?x _ ?k = Some ?k |- _ =>
-          destruct (Nat.eq_dec k x) as [?|?]; [subst k; rewrite upd_same in H | rewrite upd_other in H by auto] end).
-  all: try discriminate.
-  all: try (split; [assumption| upd_simpl; reflexivity]).
-  all: try (inversion Hq; congruence).
+  intros I Ht Hs i0 Hq. pose proof (i_ownc _ I i0) as OC.
+  step_cases Hs; thr i0 t; updq; try discriminate;
+    try (split; [assumption | reflexivity]); try congruence.
   all: destruct (OC Hq) as [Hin Hh]; split; [assumption|].
-  all: thr i0 t; upd_simpl; pcrw; fin; fin2.
+  all: crunch I.
 Qed.
 
 Lemma step_gl s s' t : Inv s -> t < n -> step t s s' ->
   forall r j i, r < n -> pc s' r = PGather j -> qlock s' i = Some r -> i <> r -> i < j.
 Proof.
-  intros I Ht Hs r j i0 Hr Hp Hq Hne. pose proof (i_gl _ I r) as GL. pose proof (i_oth _ I i0 r) as O. inst I t Ht. inst I r Hr.
-  pose proof (gathering_sl (pc s r)) as GS.
-  destruct Hs; cbn [active slock qlock q pc solved pend set_pc] in *.
-  all: try (match goal with H : release_all _ _ _ = Some _ |- _ => apply release_all_spec in H; destruct H as [Hq Hrt] end).
-  all: thr r t; upd_simpl; try discriminate.
-  all: try (inversion Hp; subst).
-  all: try (destruct (Nat.eq_dec i0 t); [subst i0; rewrite upd_same in *; congruence | rewrite upd_other in Hq by auto]).
-  all: try (match goal with H : context [upd (qlock ?s) ?i (Some ?t) ?i0] |- _ =>
-          destruct (Nat.eq_dec i0 i); [subst i0; rewrite upd_same in H | rewrite upd_other in H by auto] end).
-  all: try (eapply GL; eauto; fail).
-  all: try (specialize (GL _ _ Hr H1 Hq Hne); lia).
-  all: try (destruct (O Hq (not_eq_sym Hne)) as [_ Hg]; pcrw; fin; fin2; fail).
-  all: try (inversion Hq; congruence).
-  all: try lia.
+  intros I Ht Hs r j i0 Hr Hp Hq Hne. pose proof (i_oth _ I i0 r) as O. pose proof (multi_sl (pc s r)).
+  step_cases Hs; thr r t; thr i0 t; updq; try discriminate; try congruence.
+  all: try (destruct (O Hq (not_eq_sym Hne)) as [_ Hg]).
+  all: crunch I.
 Qed.
 
 Lemma step_done s s' t : Inv s -> t < n -> step t s s' ->
   forall u, u < n -> pc s' u = PDone -> active s' <= u.
 Proof.
-  intros I Ht Hs u Hu Hp. pose proof (i_done _ I u Hu) as DN. inst I t Ht.
-  destruct Hs; cbn [active slock qlock q pc solved pend set_pc] in *; thr u t; upd_simpl; try discriminate; auto.
-  all: try (specialize (DN Hp); lia).
+  intros I Ht Hs u Hu Hp.
+  step_cases Hs; thr u t; crunch I.
 Qed.
+
+Lemma step_gh s s' t : Inv s -> t < n -> step t s s' ->
+  forall r j i, r < n -> pc s' r = PGather j -> i < j -> i < active s' -> qlock s' i = Some r.
+Proof.
+  intros I Ht Hs r j i0 Hr Hp Hj Hi.
+  step_cases Hs; thr r t; thr i0 t; crunch I.
+Qed.
+
+Lemma step_bh s s' t : Inv s -> t < n -> step t s s' ->
+  forall r i, r < n -> pc s' r = PBalance -> i < active s' -> qlock s' i = Some r.
+Proof.
+  intros I Ht Hs r i0 Hr Hp Hi.
+  step_cases Hs; thr r t; thr i0 t; crunch I.
+Qed.
+
+Lemma step_bl s s' t : Inv s -> t < n -> step t s s' ->
+  forall r i, r < n -> pc s' r = PBalance -> qlock s' i = Some r -> i < active s'.
+Proof.
+  intros I Ht Hs r i0 Hr Hp Hq.
+  step_cases Hs; thr r t; thr i0 t; crunch I.
+Qed.
+
+Lemma step_rh s s' t : Inv s -> t < n -> step t s s' ->
+  forall r j hi i, r < n -> pc s' r = PRelease j hi -> j <= i -> i < hi -> qlock s' i = Some r.
+Proof.
+  intros I Ht Hs r j0 hi0 i0 Hr Hp Hj Hi.
+  step_cases Hs; thr r t; thr i0 t; crunch I.
+Qed.
+
+Lemma step_rl s s' t : Inv s -> t < n -> step t s s' ->
+  forall r j hi i, r < n -> pc s' r = PRelease j hi -> qlock s' i = Some r -> j <= i /\ i < hi.
+Proof.
+  intros I Ht Hs r j0 hi0 i0 Hr Hp Hq.
+  step_cases Hs; thr r t; thr i0 t; crunch I.
+Qed.
+
 
 Lemma inv_step s s' t : Inv s -> t < n -> step t s s' -> Inv s'.
 Proof.
@@ -295,19 +345,21 @@ Proof.
   - eapply step_nown; eauto.
   - eapply step_oth; eauto.
   - eapply step_tail; eauto.
-  - eapply step_J; eauto.
-  - eapply step_rel; eauto.
   - eapply step_slc; eauto.
   - eapply step_ownc; eauto.
   - eapply step_gl; eauto.
   - eapply step_done; eauto.
+  - eapply step_gh; eauto.
+  - eapply step_bh; eauto.
+  - eapply step_bl; eauto.
+  - eapply step_rh; eauto.
+  - eapply step_rl; eauto.
 Qed.
 
 Lemma inv_reach q0 s : (forall i, n <= i -> q0 i = []) -> reach (init q0) s -> Inv s.
 Proof.
   intros Hq R. induction R as [|s s' R IH [t [Ht Hs]]]; [now apply inv_init|]. eapply inv_step; eauto.
 Qed.
-
 (* ------------------------------------------------------------------ *)
 (* Termination measure                                                  *)
 Fixpoint sumf (f : nat -> nat) (k : nat) : nat := match k with O => 0 | S k' => sumf f k' + f k' end.
@@ -344,24 +396,79 @@ Proof.
   rewrite app_nil_r. rewrite IHa. reflexivity.
 Qed.
 
+
+Lemma sumf_change_le F F' k t : t < k -> (forall i, i < k -> i <> t -> F' i <= F i) ->
+  sumf F' k + F t <= sumf F k + F' t.
+Proof.
+  induction k; intros Ht H; [lia|]. cbn.
+  destruct (Nat.eq_dec t k) as [->|].
+  - assert (sumf F' k <= sumf F k).
+    { clear IHk Ht. induction k; cbn; [lia|]. assert (sumf F' k <= sumf F k) by (apply IHk; intros; apply H; lia).
+      pose proof (H k). lia. }
+    lia.
+  - pose proof (H k). assert (sumf F' k + F t <= sumf F k + F' t) by (apply IHk; [lia|intros; apply H; lia]). lia.
+Qed.
+
+Lemma sumf_le F F' k : (forall i, i < k -> F' i <= F i) -> sumf F' k <= sumf F k.
+Proof. induction k; cbn; intros H; [lia|]. pose proof (H k). assert (sumf F' k <= sumf F k) by (apply IHk; intros; apply H; lia). lia. Qed.
+
+(* at most one index goes up, by at most one *)
+Lemma sumf_le_bump F F' k j : (forall i, i < k -> i <> j -> F' i <= F i) -> F' j <= F j + 1 ->
+  sumf F' k <= sumf F k + 1.
+Proof.
+  intros H Hj. destruct (lt_dec j k) as [Hjk|Hjk].
+  - pose proof (sumf_change_le F F' k j Hjk H). lia.
+  - pose proof (sumf_le F F' k). assert (sumf F' k <= sumf F k) by (apply H0; intros; apply H; lia). lia.
+Qed.
+
 Definition nilb (l : list piece) : bool := match l with [] => true | _ => false end.
 Definition Fq (s : st) i := length (q s i).
 Definition Fe (s : st) i := if (i <? active s) && nilb (q s i) then 1 else 0.
 Definition Fi (s : st) i := match pc s i with PSolve _ => 1 | _ => 0 end.
-Definition Fp (s : st) i := if pend s i then 1 else 0.
+(* [Fc s i] = 1 iff thread i may still pass through the state lock without balancing (a "wasted
+   pass": it finds its own queue non-empty and releases again): it is on such a pass already, or it
+   waits for / holds the state lock with a non-empty queue whose lock no other thread holds.
+   With one-at-a-time release such passes are reachable with [pend] false: a worker that solved a
+   piece during the release phase fails its try_lock (its queue lock is still held by the releasing
+   thread), and after the release finds its rebalanced queue non-empty.  The only steps that raise
+   [Fc] of some thread are [s_balance] (paid by [cB]) and [s_release] of that thread's queue lock
+   (by at most one, paid by the [cC + 1] drop of [dist (PRelease j hi)]); [s_rel_state] lowers it
+   and thereby pays for the jump of [dist] back to [PTry].  A measure of the old shape
+   (state-sums + sum of [dist (pc i)]) cannot work any more: [s_try_fail] changes nothing but the pc
+   (PTry -> PWantState), while a wasted pass changes nothing but the pc (PWantState -> PTry). *)
+Definition free_or_own (l : option nat) (i : nat) : bool := match l with None => true | Some h => h =? i end.
+Definition Fc (s : st) i :=
+  match pc s i with
+  | PWantState | PChk | PLockOwn | PChkLen => if free_or_own (qlock s i) i && negb (nilb (q s i)) then 1 else 0
+  | PRelease _ _ | PRelOwn | PRelState => 1
+  | _ => 0
+  end.
+Definition cC := n + 11.
 Definition dist (p : pcT) : nat :=
   match p with
   | PTry => n + 12 | PHoldOwn => n + 11 | PSolve _ => n + 10 | PWantState => n + 10
   | PChk => n + 9 | PLockOwn => n + 8 | PChkLen => n + 7
-  | PGather i => 5 + (n - i) | PBalance => 4 | PRelOwn => 3 | PRelState => 2 | PDone => 0
+  | PGather i => 5 + (n - i) | PBalance => 4
+  | PRelease j hi => 3 + (cC + 1) * (hi - j)
+  | PRelOwn => 3 | PRelState => 2 | PDone => 0
   end.
 Definition Fd (s : st) i := dist (pc s i).
 
-Definition cC := n + 11.
-Definition cB := cC * n + 5.
+Definition cB := cC * n + (cC + 1) * n + 5.
 Definition measure (s : st) : nat :=
-  3 * (sumf (Fq s) n + sumf (Fi s) n) + cB * (sumf (Fq s) n + sumf (Fe s) n) + cC * sumf (Fp s) n + sumf (Fd s) n.
+  3 * (sumf (Fq s) n + sumf (Fi s) n) + cB * (sumf (Fq s) n + sumf (Fe s) n) + cC * sumf (Fc s) n + sumf (Fd s) n.
 
+Lemma Fc_le1 s k : Fc s k <= 1.
+Proof. unfold Fc. destruct (pc s k); try lia; destruct (_ && _); lia. Qed.
+
+Lemma Fc_same s s' k : pc s' k = pc s k -> q s' k = q s k -> qlock s' k = qlock s k -> Fc s' k = Fc s k.
+Proof. unfold Fc. intros -> -> ->. reflexivity. Qed.
+
+Lemma Fc_le_lock s s' k h : pc s' k = pc s k -> q s' k = q s k -> qlock s' k = Some h -> h <> k -> Fc s' k <= Fc s k.
+Proof.
+  unfold Fc. intros -> -> -> Hne. cbn [free_or_own]. rewrite (proj2 (Nat.eqb_neq h k) Hne). cbn [andb].
+  destruct (pc s k); try lia; destruct (_ && _); lia.
+Qed.
 
 Ltac chg F s s' t Ht :=
   let H := fresh "CH" in
@@ -370,7 +477,6 @@ Ltac chg F s s' t Ht :=
 
 Lemma mul_mono k x y : x <= y -> k * x <= k * y. Proof. intros. now apply Nat.mul_le_mono_l. Qed.
 
-
 Ltac abstract_sums s s' :=
   let Q' := fresh "Q'" in set (Q' := sumf (Fq s') n) in *;
   let Q := fresh "Q" in set (Q := sumf (Fq s) n) in *;
@@ -378,35 +484,92 @@ Ltac abstract_sums s s' :=
   let E := fresh "E" in set (E := sumf (Fe s) n) in *;
   let I' := fresh "I'" in set (I' := sumf (Fi s') n) in *;
   let I := fresh "I" in set (I := sumf (Fi s) n) in *;
-  let P' := fresh "P'" in set (P' := sumf (Fp s') n) in *;
-  let P := fresh "P" in set (P := sumf (Fp s) n) in *;
+  let P' := fresh "P'" in set (P' := sumf (Fc s') n) in *;
+  let P := fresh "P" in set (P := sumf (Fc s) n) in *;
   let D' := fresh "D'" in set (D' := sumf (Fd s') n) in *;
   let D := fresh "D" in set (D := sumf (Fd s) n) in *;
   clearbody Q' Q E' E I' I P' P D' D.
 
-Lemma measure_dec_local s s' t : Inv s -> t < n -> step t s s' ->
-  pc s t <> PBalance -> measure s' < measure s.
+(* every step except balance / release: no thread other than the stepping one gains a wasted pass *)
+Lemma Fc_other s s' t k : step t s s' -> pc s t <> PBalance -> (forall j hi, pc s t <> PRelease j hi) ->
+  k <> t -> Fc s' k <= Fc s k.
 Proof.
-  intros I Ht Hs NB. inst I t Ht. pose proof (i_act _ I) as Hact.
-  destruct Hs; try congruence;
-  match goal with |- measure ?s' < measure ?s =>
-    chg Fq s s' t Ht; chg Fe s s' t Ht; chg Fi s s' t Ht; chg Fp s s' t Ht; chg Fd s s' t Ht;
-    unfold measure; abstract_sums s s' end.
-  all: unfold Fq, Fe, Fi, Fp, Fd in *; cbn [active slock qlock q pc solved pend set_pc] in *; upd_simpl.
-  all: pcrw; cbn [dist holds_slock holds_own in_active gathering idle_pre releasing] in *; prem.
-  all: try lia.
-  - (* pop_some *)
-    rewrite H1 in *. rewrite app_length in *. cbn [length] in *.
-    assert (nilb (rest ++ [w]) = false) as Hn by (destruct rest; reflexivity). rewrite Hn in *.
-    rewrite andb_false_r in *.
-    assert (HQE : Q' + E' <= Q + E0) by (destruct ((t <? active s) && nilb rest); lia).
-    pose proof (mul_mono cB _ _ HQE). lia.
-  - (* rel_state *)
-    rewrite H in *. assert (P = P' + 1) by lia. subst P.
-    assert (cC * (P' + 1) = cC * P' + cC) by (rewrite Nat.mul_add_distr_l; lia).
-    assert (cC = n + 11) by reflexivity. lia.
+  intros Hs NB NR Hk.
+  destruct Hs; try congruence; try (exfalso; eapply NR; eauto; fail);
+    cbn [active slock qlock q pc solved pend set_pc] in *.
+  all: try (apply Nat.eq_le_incl; apply Fc_same; cbn [active slock qlock q pc solved pend set_pc]; upd_simpl; reflexivity).
+  (* gather_lock *)
+  destruct (Nat.eq_dec k i) as [->|].
+  - eapply Fc_le_lock; cbn [active slock qlock q pc solved pend set_pc]; upd_simpl; eauto.
+  - apply Nat.eq_le_incl; apply Fc_same; cbn [active slock qlock q pc solved pend set_pc]; upd_simpl; reflexivity.
 Qed.
 
+Lemma measure_dec_local s s' t : Inv s -> t < n -> step t s s' ->
+  pc s t <> PBalance -> (forall j hi, pc s t <> PRelease j hi) -> measure s' < measure s.
+Proof.
+  intros I Ht Hs NB NR. inst I t Ht. pose proof (i_act _ I) as Hact.
+  assert (CHc : sumf (Fc s') n + Fc s t <= sumf (Fc s) n + Fc s' t).
+  { apply sumf_change_le; [exact Ht|]. intros k _ Hk. eapply Fc_other; eauto. }
+  destruct Hs; try congruence; try (exfalso; eapply NR; eauto; fail);
+  match goal with |- measure ?s' < measure ?s =>
+    chg Fq s s' t Ht; chg Fe s s' t Ht; chg Fi s s' t Ht; chg Fd s s' t Ht;
+    unfold measure; abstract_sums s s' end.
+  all: unfold Fq, Fe, Fi, Fc, Fd in *; cbn [active slock qlock q pc solved pend set_pc] in *; upd_simpl.
+  all: facts I; pcrw; cbn [dist holds_slock holds_own in_active gathering multi] in *; prem.
+  all: repeat match goal with
+       | H : qlock _ _ = _ |- _ => rewrite H in *
+       | H : q _ _ = [] |- _ => rewrite H in *
+       | H : q ?s ?t <> [] |- _ => destruct (q s t) eqn:?; [congruence|clear H]
+       end.
+  all: cbn [free_or_own nilb negb andb length] in *; rewrite ?Nat.eqb_refl, ?andb_false_r in *; cbn [free_or_own nilb negb andb] in *.
+  all: pose proof (mul_mono cC _ _ CHc) as CM; rewrite !Nat.mul_add_distr_l in CM.
+  all: assert (HcC : cC = n + 11) by reflexivity.
+  all: try lia.
+  - (* try_fail *)
+    assert (Hh : h <> t) by congruence. rewrite (proj2 (Nat.eqb_neq h t) Hh) in *. cbn [andb] in *. lia.
+  - (* pop_some *)
+    rewrite H6 in *. rewrite app_length in *. cbn [length] in *.
+    assert (nilb (rest ++ [w]) = false) as Hn by (destruct rest; reflexivity). rewrite Hn in *.
+    rewrite andb_false_r in *.
+    assert (HQE : Q' + E' <= Q + E) by (destruct ((t <? active s) && nilb rest); lia).
+    pose proof (mul_mono cB _ _ HQE). lia.
+Qed.
+
+Lemma measure_dec_release s t j hi : Inv s -> t < n -> pc s t = PRelease j hi ->
+  forall s', step t s s' -> measure s' < measure s.
+Proof.
+  intros I Ht Hpc s' Hs.
+  inversion Hs; subst; try congruence.
+  - (* release of queue lock j0 *)
+    match goal with H : pc s t = PRelease ?a ?b |- _ => rewrite Hpc in H; inversion H; subst a b; clear H end.
+    match goal with |- measure ?s' < measure ?s =>
+      chg Fq s s' t Ht; chg Fe s s' t Ht; chg Fi s s' t Ht; chg Fd s s' t Ht;
+      assert (CHc : sumf (Fc s') n <= sumf (Fc s) n + 1);
+      [|unfold measure; abstract_sums s s'] end.
+    { apply (sumf_le_bump _ _ n j).
+      - intros k _ Hk. destruct (Nat.eq_dec k t) as [->|Hkt].
+        + unfold Fc; cbn [pc]. rewrite upd_same, Hpc. lia.
+        + apply Nat.eq_le_incl, Fc_same; cbn [active slock qlock q pc solved pend set_pc];
+            rewrite ?upd_other by auto; reflexivity.
+      - match goal with |- Fc ?s' _ <= _ => pose proof (Fc_le1 s' j) end. lia. }
+    unfold Fq, Fe, Fi, Fd in *; cbn [active slock qlock q pc solved pend set_pc] in *; upd_simpl.
+    rewrite Hpc in *. cbn [dist] in *.
+    assert (HD : (cC + 1) * (hi - j) = (cC + 1) * (hi - S j) + (cC + 1)).
+    { replace (hi - j) with (S (hi - S j)) by lia. rewrite Nat.mul_succ_r. reflexivity. }
+    pose proof (mul_mono cC _ _ CHc) as CM. rewrite Nat.mul_add_distr_l, Nat.mul_1_r in CM.
+    assert (Q' = Q) by lia. assert (E' = E) by lia. subst Q' E'.
+    set (X := (cC + 1) * (hi - S j)) in *. set (Y := (cC + 1) * (hi - j)) in *. clearbody X Y.
+    set (Z := cB * (Q + E)). clearbody Z. lia.
+  - (* release_done *)
+    match goal with H : pc s t = PRelease ?a ?b |- _ => rewrite Hpc in H; inversion H; subst a b; clear H end.
+    match goal with |- measure ?s' < measure ?s =>
+      chg Fq s s' t Ht; chg Fe s s' t Ht; chg Fi s s' t Ht; chg Fd s s' t Ht; chg Fc s s' t Ht;
+      unfold measure; abstract_sums s s' end.
+    unfold Fq, Fe, Fi, Fd, Fc in *; cbn [active slock qlock q pc solved pend set_pc] in *; upd_simpl.
+    rewrite Hpc in *. cbn [dist] in *.
+    assert (Q' = Q) by lia. assert (E' = E) by lia. assert (P' = P) by lia. subst Q' E' P'.
+    set (X := (cC + 1) * (hi - j)) in *. clearbody X. lia.
+Qed.
 (* ---- the balance step ---- *)
 Lemma trailing_empty_stop (f : nat -> list piece) a : 0 < a - trailing_empty f a -> f (a - trailing_empty f a - 1) <> [].
 Proof.
@@ -429,53 +592,56 @@ Qed.
 Lemma measure_dec_balance s t : Inv s -> t < n -> pc s t = PBalance ->
   forall s', step t s s' -> measure s' < measure s.
 Proof.
-  intros I Ht Hpc s' Hs. inst I t Ht. pose proof (i_act _ I) as Hact. pose proof (i_tail _ I) as Tl.
-  rewrite Hpc in *. cbn [holds_slock holds_own in_active gathering idle_pre releasing] in *. prem.
-  inversion Hs as [| | | | | | | | | | | | | |s0 q' Hpc0 Hb| |]; subst; try congruence. clear Hs.
-  set (s' := {| active := active s - trailing_empty q' (active s); slock := slock s;
-       qlock := release_all t (qlock s); q := q'; pc := upd (pc s) t PRelState;
-       solved := solved s; pend := fun _ : nat => true |}).
+  intros I Ht Hpc s' Hs. pose proof (i_act _ I) as Hact. pose proof (i_tail _ I) as Tl.
+  pose proof (i_in _ I t Ht) as Hin. pose proof (i_emp _ I t Ht) as Hemp.
+  rewrite Hpc in *. cbn [in_active gathering] in *. specialize (Hin eq_refl). specialize (Hemp eq_refl).
+  inversion Hs as [| | | | | | | | | | | | | |s0 qb Hpc0 Hbal| | | |]; subst; try congruence. clear Hs.
+  match goal with |- measure ?s1 < _ => set (s' := s1) end.
   (* queue length preserved *)
   assert (HQ : sumf (Fq s') n = sumf (Fq s) n).
   { apply (sumf_split_ext _ _ (active s)); [exact Hact| |].
-    - intros i Hi. unfold Fq, s'; cbn. now rewrite (bal_out _ _ _ _ Hb).
-    - pose proof (bal_perm (active s) (q s) q' Hb) as Pm. apply Permutation_length in Pm.
+    - intros i Hi. unfold Fq, s'; cbn. now rewrite (bal_out _ _ _ _ Hbal).
+    - pose proof (bal_perm (active s) (q s) qb Hbal) as Pm. apply Permutation_length in Pm.
       rewrite !flat_length in Pm. exact Pm. }
   (* no empty active queue afterwards *)
   assert (HE' : sumf (Fe s') n = 0).
   { apply sumf_zero. intros i Hi. unfold Fe, s'; cbn [active q].
-    destruct (Nat.ltb_spec i (active s - trailing_empty q' (active s))) as [Hlt|]; [|reflexivity].
-    pose proof (bal_nonempty_below _ _ _ _ Hb Hlt). destruct (q' i); [congruence|reflexivity]. }
+    destruct (Nat.ltb_spec i (active s - trailing_empty qb (active s))) as [Hlt|]; [|reflexivity].
+    pose proof (bal_nonempty_below _ _ _ _ Hbal Hlt). destruct (qb i); [congruence|reflexivity]. }
   (* the balancing thread's own queue was empty and active *)
   assert (HE : 1 <= sumf (Fe s) n).
-  { pose proof (sumf_ge (Fe s) n t Ht) as G1. unfold Fe at 1 in G1. rewrite D in G1.
+  { pose proof (sumf_ge (Fe s) n t Ht) as G1. unfold Fe at 1 in G1. rewrite Hemp in G1.
     destruct (Nat.ltb_spec t (active s)); [exact G1|lia]. }
   assert (HI : sumf (Fi s') n = sumf (Fi s) n).
   { apply sumf_ext. intros i Hi. unfold Fi, s'; cbn [pc]. destruct (Nat.eq_dec i t) as [->|]; upd_simpl; [now rewrite Hpc|reflexivity]. }
-  assert (HP : sumf (Fp s') n <= 1 * n) by (apply sumf_le_const; intros; unfold Fp, s'; cbn; lia).
-  assert (HD : sumf (Fd s') n + 4 = sumf (Fd s) n + 2).
+  assert (HP : sumf (Fc s') n <= 1 * n) by (apply sumf_le_const; intros; apply Fc_le1).
+  assert (HD : sumf (Fd s') n + 4 = sumf (Fd s) n + (3 + (cC + 1) * active s)).
   { assert (X: sumf (Fd s') n + Fd s t = sumf (Fd s) n + Fd s' t).
     { apply sumf_change; [exact Ht|]. intros i Hi Hne. unfold Fd, s'; cbn [pc]. now rewrite upd_other. }
     assert (Fd s t = 4) by (unfold Fd; rewrite Hpc; reflexivity).
-    assert (Fd s' t = 2) by (unfold Fd, s'; cbn [pc]; rewrite upd_same; reflexivity).
+    assert (Fd s' t = 3 + (cC + 1) * active s) by (unfold Fd, s'; cbn [pc dist]; rewrite upd_same; cbn [dist]; now rewrite Nat.sub_0_r).
     lia. }
+  assert (HA : (cC + 1) * active s <= (cC + 1) * n) by (apply mul_mono; exact Hact).
   unfold measure. abstract_sums s s'. subst.
-  assert (HX : cB * (Q + 0) + cB <= cB * (Q + E0)).
+  assert (HX : cB * (Q + 0) + cB <= cB * (Q + E)).
   { replace (cB * (Q + 0) + cB) with (cB * (Q + 1)) by (rewrite !Nat.mul_add_distr_l; lia). apply mul_mono. lia. }
   assert (HY : cC * P' <= cC * n) by (apply mul_mono; lia).
-  assert (cB = cC * n + 5) by reflexivity. lia.
+  assert (cB = cC * n + (cC + 1) * n + 5) by reflexivity.
+  set (X := (cC + 1) * active s) in *. set (Y := (cC + 1) * n) in *. clearbody X Y. lia.
 Qed.
 
 Theorem measure_dec s s' t : Inv s -> t < n -> step t s s' -> measure s' < measure s.
 Proof.
   intros I Ht Hs. destruct (pc s t) eqn:E; try (apply (measure_dec_local s s' t); auto; congruence).
-  eapply measure_dec_balance; eauto.
+  - eapply measure_dec_balance; eauto.
+  - eapply measure_dec_release; eauto.
 Qed.
 
 Theorem exec_terminates q0 : (forall i, n <= i -> q0 i = []) ->
   forall s s', reach (init q0) s -> any_step s s' -> measure s' < measure s.
-Proof. intros Hq s s' R [t [Ht Hs]]. eapply measure_dec; eauto. eapply inv_reach; eauto. Qed.
-
+Proof using bal_perm bal_out bal_mono bal_total.
+  (* all four facts about [balanced] are parameters of every exported theorem (uniform interface for Properties/C05.v) *)
+  intros Hq s s' R [t [Ht Hs]]. eapply measure_dec; eauto. eapply inv_reach; eauto. Qed.
 (* ------------------------------------------------------------------ *)
 (* Deadlock freedom                                                     *)
 Lemma list_last_or_nil {A} (l : list A) : l = [] \/ exists r w, l = r ++ [w].
@@ -486,15 +652,19 @@ Proof.
   intros I [t0 [Ht0 Hnd]].
   destruct (slock s) as [r|] eqn:SL.
   - (* the holder of the state lock can move, or waits for a thread that can *)
-    destruct (i_slc _ I r SL) as [Hr Hh]. inst I r Hr.
-    destruct (pc s r) eqn:P; cbn in Hh; try discriminate; try rewrite P in *;
-      cbn [holds_slock holds_own in_active gathering idle_pre releasing] in *; prem.
+    destruct (i_slc _ I r SL) as [Hr Hh].
+    (* no other thread holds a queue lock that is not its own *)
+    assert (OnlyR : forall i h, qlock s i = Some h -> h <> i -> h = r).
+    { intros i h Q Hne. destruct (i_oth _ I i h Q Hne) as [Hh2 Hg].
+      pose proof (i_sl _ I h Hh2 (multi_sl _ Hg)). congruence. }
+    destruct (pc s r) eqn:P; cbn in Hh; try discriminate.
     + (* PChk *) destruct (le_lt_dec (active s) r); eexists; exists r; split; auto; [eapply s_chk_exit|eapply s_chk_stay]; eauto.
     + (* PLockOwn *)
       assert (qlock s r = None).
       { destruct (qlock s r) as [h|] eqn:Q; [|reflexivity]. exfalso.
-        destruct (Nat.eq_dec h r) as [->|Hne]; [congruence|].
-        destruct (i_oth _ I r h Q Hne) as [Hh2 Hg]. pose proof (i_sl _ I h Hh2 (gathering_sl _ Hg)). congruence. }
+        destruct (Nat.eq_dec h r) as [->|Hne].
+        - pose proof (i_nown _ I r Hr) as F. rewrite P in F. cbn in F. apply F; auto.
+        - apply Hne. eapply OnlyR; eauto. }
       eexists; exists r; split; auto. eapply s_lock_own; eauto.
     + (* PChkLen *) destruct (q s r) eqn:Q; eexists; exists r; split; auto; [eapply s_len_none|eapply s_len_some]; eauto; congruence.
     + (* PGather i *)
@@ -510,14 +680,18 @@ Proof.
           pose proof (i_sl _ I i Hin X); congruence. }
         destruct (list_last_or_nil (q s i)) as [Hn|[rest [w Hw]]]; eexists; exists i; split; auto;
           [eapply s_pop_none|eapply s_pop_some]; eauto.
-      * exfalso. destruct (i_oth _ I i h Q Hne) as [Hh2 Hg]. pose proof (i_sl _ I h Hh2 (gathering_sl _ Hg)).
-        assert (h = r) by congruence. subst h. pose proof (i_gl _ I r i i Hr P Q Hir). lia.
-    + destruct (bal_total (active s) (q s)) as [q' Hb]. eexists; exists r; split; auto. eapply s_balance; eauto.
+      * exfalso. assert (h = r) by (eapply OnlyR; eauto). subst h.
+        pose proof (i_gl _ I r i i Hr P Q Hir). lia.
+    + (* PBalance *) destruct (bal_total (active s) (q s)) as [q' Hb]. eexists; exists r; split; auto. eapply s_balance; eauto.
+    + (* PRelease j hi: release the next gathered lock, or finish *)
+      destruct (le_lt_dec hi j).
+      * eexists; exists r; split; auto. eapply s_release_done; eauto.
+      * eexists; exists r; split; auto. eapply s_release; eauto. eapply (i_rh _ I r j hi j); eauto.
     + eexists; exists r; split; auto. eapply s_rel_own; eauto.
     + eexists; exists r; split; auto. eapply s_rel_state; eauto.
   - (* state lock free: any thread that is not done can move *)
-    inst I t0 Ht0.
-    destruct (pc s t0) eqn:P; cbn in *; prem; try congruence.
+    pose proof (i_sl _ I t0 Ht0) as B.
+    destruct (pc s t0) eqn:P; cbn in B; try (specialize (B eq_refl)); try congruence.
     + destruct (qlock s t0) eqn:Q; eexists; exists t0; split; auto; [eapply s_try_fail|eapply s_try_ok]; eauto.
     + destruct (list_last_or_nil (q s t0)) as [Hn|[rest [w Hw]]]; eexists; exists t0; split; auto;
         [eapply s_pop_none|eapply s_pop_some]; eauto.
@@ -527,7 +701,9 @@ Qed.
 
 Theorem exec_deadlock_free q0 s : (forall i, n <= i -> q0 i = []) -> reach (init q0) s ->
   (exists t, t < n /\ pc s t <> PDone) -> exists s', any_step s s'.
-Proof. intros. eapply progress; eauto. eapply inv_reach; eauto. Qed.
+Proof using bal_perm bal_out bal_mono bal_total.
+  (* all four facts about [balanced] are parameters of every exported theorem (uniform interface for Properties/C05.v) *)
+  intros. eapply progress; eauto. eapply inv_reach; eauto. Qed.
 
 (* ------------------------------------------------------------------ *)
 (* Conservation: every piece is solved exactly once                     *)
@@ -568,7 +744,7 @@ Proof.
   destruct Hs; unfold set_pc; cbn [active slock qlock q pc solved pend].
   all: try (match goal with |- Permutation (_ ++ flat n (Fin ?s') ++ _) (_ ++ flat n (Fin ?s) ++ _) =>
         assert (HF : flat n (Fin s') = flat n (Fin s))
-          by (apply flat_ext; intros j Hj; unfold Fin; cbn [pc]; destruct (Nat.eq_dec j t) as [->|];
+          by (apply flat_ext; intros k Hk; unfold Fin; cbn [pc]; destruct (Nat.eq_dec k t) as [->|];
               [rewrite upd_same; match goal with H : pc _ _ = _ |- _ => rewrite H end; reflexivity
               |rewrite upd_other by auto; reflexivity]);
         rewrite HF; reflexivity end).
@@ -602,10 +778,9 @@ Proof.
     apply Permutation_cons_app. rewrite <- app_assoc. reflexivity.
   - (* balance *)
     apply Permutation_app_head.
-    assert (HF : flat n (Fin {| active := active s - trailing_empty q' (active s); slock := slock s;
-         qlock := release_all t (qlock s); q := q'; pc := upd (pc s) t PRelState;
-         solved := solved s; pend := fun _ : nat => true |}) = flat n (Fin s)).
-    { apply flat_ext; intros j Hj; unfold Fin; cbn [pc]. destruct (Nat.eq_dec j t) as [->|];
+    match goal with |- Permutation (flat n (Fin ?s1) ++ _) _ =>
+      assert (HF : flat n (Fin s1) = flat n (Fin s)) end.
+    { apply flat_ext; intros k Hk; unfold Fin; cbn [pc]. destruct (Nat.eq_dec k t) as [->|];
         [rewrite upd_same, H; reflexivity | rewrite upd_other by auto; reflexivity]. }
     rewrite HF. apply Permutation_app_head.
     match goal with Hb : balanced _ _ _ |- _ =>
@@ -614,7 +789,9 @@ Qed.
 
 Theorem exec_conservation q0 s : (forall i, n <= i -> q0 i = []) -> reach (init q0) s ->
   Permutation (solved s ++ flat n (Fin s) ++ flat n (q s)) (flat n q0).
-Proof.
+Proof using bal_perm bal_out bal_mono bal_total.
+  (* all four facts about [balanced] are parameters of every exported theorem (uniform interface for Properties/C05.v) *)
+ 
   intros Hq R. induction R as [|s s' R IH [t [Ht Hs]]].
   - unfold init, Fin; cbn. assert (flat n (fun _ : nat => @nil piece) = []) as ->; [|reflexivity].
     clear. induction n; [reflexivity|]. rewrite flat_S, IHn0. reflexivity.
@@ -623,7 +800,9 @@ Qed.
 
 Theorem exec_exactly_once q0 s : (forall i, n <= i -> q0 i = []) -> reach (init q0) s ->
   (forall t, t < n -> pc s t = PDone) -> Permutation (solved s) (flat n q0).
-Proof.
+Proof using bal_perm bal_out bal_mono bal_total.
+  (* all four facts about [balanced] are parameters of every exported theorem (uniform interface for Properties/C05.v) *)
+ 
   intros Hq R Hd. pose proof (exec_conservation q0 s Hq R) as C. pose proof (inv_reach q0 s Hq R) as I.
   assert (flat n (Fin s) = []) as E1.
   { assert (flat n (Fin s) = flat n (fun _ => [])) as -> by (apply flat_ext; intros; unfold Fin; now rewrite Hd).
